@@ -1,3 +1,5 @@
+import XPathV.Lemmas.Facts
+import XPathV.Generated.ExtraFacts
 import XPathV.Lemmas.C08Base
 import XPathV.Lemmas.ArithSem
 /-!
@@ -81,5 +83,18 @@ example : NumE (.oper "-" (.oper "*" (.group (.oper "+" (.num "1") (.num "2.5"))
     (.call "floor" "" (.acons (.oper "div" (.num "3") (.num "0")) .anil))) :=
   .arith "-" _ _ (by decide) (NumEG.neg (.group _ (.arith "+" _ _ (by decide) (.num _) (.num _))))
     (.floor "" _ (.arith "div" _ _ (by decide) (.num _) (.num _)))
+
+/-! ## T0: what the regenerated facts say about the current source (leaf theorems: nothing builds on them, so a
+change of the source that invalidates one of them stops only this module) -/
+
+/-- T0: `mod` no longer goes through `int` (the pinned `float64(int(a) % int(b))`), and the numeric
+operators are wired to the expected functions -/
+theorem numeric_ops_ok : Generated.modUsesIntConversion = false ∧
+    Generated.numericOpFuncs = [("+", "plusFunc"), ("-", "minusFunc"), ("*", "mulFunc"), ("div", "divFunc"), ("mod", "modFunc")] := by decide
+
+/-- T0: `mod` is `math.Mod`, the number rendering arm of `asString` is the XPath one -/
+theorem numeric_sources_ok : Generated.modCallbackSrc = "math.Mod(a,b)" ∧
+    Generated.asStringFloatSrc = "switch{casemath.IsNaN(v):return\"NaN\"casemath.IsInf(v,1):return\"Infinity\"casemath.IsInf(v,-1):return\"-Infinity\"casev==0:return\"0\"};returnstrconv.FormatFloat(v,'f',-1,64)" :=
+  ⟨rfl, rfl⟩
 
 end XPathV.Theorems.C08
